@@ -479,5 +479,11 @@ pub fn compile(prog: &Prog, t: &mut Tape) -> Compiled {
         globals.rotate_left(r);
     }
     c.pool.junk(c.t);
-    Compiled { model: Model { consts: c.pool.consts, globals, entry }, entry_returns }
+    let mut model = Model { consts: c.pool.consts, globals, entry };
+    // sometimes the entry method is the very first constant (its name comes later in the pool):
+    // nothing in the format gives index 0 a meaning of its own
+    if entry_returns && c.t.chance(12) {
+        model = model.with_const_moved(entry as usize, 0);
+    }
+    Compiled { model, entry_returns }
 }
